@@ -136,6 +136,87 @@ def judge_tolerant(nest, lim, s, a, same_without_loop_limit):
     return None
 
 
+# ---- loops across template inheritance (extends / block / block.super of liquid.extra; outside the Coq model): the lengths of
+# all loops that are entered when a for tag runs multiply, whichever template of the chain each loop is written in
+def _loop(kind, var, n, body):
+    if kind == "for":
+        return "{% for " + var + " in (1.." + str(n) + ") %}" + body + "{% endfor %}"
+    return "{% tablerow " + var + " in (1.." + str(n) + ") %}" + body + "{% endtablerow %}"
+
+
+SUPER = "{{ block.super }}"
+INHERIT_SHAPES = {
+    # name -> (templates by lengths (a, b, c) and loop kind, the chain of lengths enclosing the leaf)
+    "child-loop-around-super": lambda k, a, b, c: (
+        {"base": "{% block b %}" + _loop("for", "j", b, "x") + "{% endblock %}",
+         "main": "{% extends 'base' %}{% block b %}" + _loop(k, "i", a, SUPER) + "{% endblock %}"}, [a, b]),
+    "three-levels": lambda k, a, b, c: (
+        {"base": "{% block b %}" + _loop(k, "j", c, "x") + "{% endblock %}",
+         "mid": "{% extends 'base' %}{% block b %}" + _loop("for", "m", b, SUPER) + "{% endblock %}",
+         "main": "{% extends 'mid' %}{% block b %}" + _loop("for", "i", a, SUPER) + "{% endblock %}"}, [a, b, c]),
+    "base-loop-around-block": lambda k, a, b, c: (
+        {"base": _loop("for", "o", c, "{% block b %}" + _loop("for", "j", b, "x") + "{% endblock %}"),
+         "main": "{% extends 'base' %}{% block b %}" + _loop(k, "i", a, SUPER) + "{% endblock %}"}, [c, a, b]),
+    "super-renders-partial": lambda k, a, b, c: (
+        {"base": "{% block b %}{% render 'p' %}{% endblock %}", "p": _loop(k, "j", b, "x"),
+         "main": "{% extends 'base' %}{% block b %}" + _loop("for", "i", a, SUPER) + "{% endblock %}"}, [a, b]),
+    "override-without-super": lambda k, a, b, c: (
+        {"base": _loop("for", "o", c, "{% block b %}no{% endblock %}"),
+         "main": "{% extends 'base' %}{% block b %}" + _loop(k, "i", a, _loop("for", "j", b, "x")) + "{% endblock %}"}, [c, a, b]),
+}
+
+
+def _render_chain(templates, limit, use_async):
+    from liquid import DictLoader, Environment
+    import liquid.extra as ex
+
+    from ..core import run_async
+
+    env = type("VerifEnv", (Environment,), {"loop_iteration_limit": limit})(loader=DictLoader(dict(templates)))
+    ex.add_tags(env)
+    try:
+        t = env.get_template("main")
+        return ("out", (run_async(t.render_async()) if use_async else t.render()).count("x"))
+    except Exception as e:  # noqa: BLE001
+        return ("err", L.classify(e))
+
+
+def judge_chain(lengths, limit, s, a):
+    prod = 1
+    over = False
+    for n in lengths:               # a for tag raises when the product including its own length exceeds the limit
+        prod *= n
+        over = over or prod > limit
+    if s != a:
+        return "c06-inherit-sync-async-differ", f"sync {s} but async {a}"
+    if over and s != ("err", "XLoop"):
+        return "c06-inherit-over-limit", (f"loops of lengths {lengths} (product {prod}) are entered one inside the other under "
+                                          f"loop_iteration_limit {limit}, but the render gave {s} instead of LoopIterationLimitError")
+    if not over and s != ("out", prod):
+        return "c06-inherit-within-limit", f"lengths {lengths} multiply to {prod} <= limit {limit} but the render gave {s}"
+    return None
+
+
+def inheritance_family(ck: Check) -> None:
+    lens = (1, 2, 3) if ck.quick else (1, 2, 3, 5)
+    for name, mk in INHERIT_SHAPES.items():
+        for kind in ("for", "tablerow"):
+            for a in lens:
+                for b in lens:
+                    for c in (lens if name in ("three-levels", "base-loop-around-block", "override-without-super") else (1,)):
+                        templates, lengths = mk(kind, a, b, c)
+                        prod = a * b * c
+                        for limit in sorted({1, prod - 1, prod, 200} - {0}):
+                            s = _render_chain(templates, limit, False)
+                            x = _render_chain(templates, limit, True)
+                            ck.note_case(("inherit", name, kind, a, b, c, limit), nontrivial=prod >= 2)
+                            ck.count("inherit." + ("raised" if s[0] == "err" else "completed"))
+                            v = judge_chain(lengths, limit, s, x)
+                            if v is not None and sum(1 for y in ck.violations if y.signature == v[0] + ":" + name) < 2:
+                                ck.violation("impl-violation", v[0] + ":" + name, f"{templates!r} limit {limit}: {v[1]}",
+                                             {"kind": "inherit", "templates": templates, "lengths": lengths, "limit": limit, "sync": s, "async": x})
+
+
 def run(ck: Check) -> None:
     ck.rule = (
         "every chain of for / tablerow / include-with-array / render-for (lengths 0,1,2,3,5,12) and include / render / macro call "
@@ -143,7 +224,7 @@ def run(ck: Check) -> None:
         "random trees with several leaves; each nest rendered (sync and async) without a limit and under every loop_iteration_limit in "
         "{1,2,5,6,11,24,60,200}; leaf executions counted from the output; the chains to depth 2, the trees and a sample of the rest "
         "also in WARN and LAX mode (limits 2, 5, 24; with context_depth_limit 5 / 6 so that an error is dropped inside a loop). Non-trivial = at least one repeating construct of length >= 2; "
-        "distinct = distinct (nest, limit)."
+        "Plus five inheritance shapes (extends / block / block.super, oracle only): loops written in the child, the parent and the base of a chain, entered one inside the other, lengths 1..3 (5), limits 1, P-1, P, 200. distinct = distinct (nest, limit)."
     )
     ck.exhaustive = True
     ck.trusted_base = [
@@ -156,6 +237,7 @@ def run(ck: Check) -> None:
         "leaf executions are observed as the number of 'x' in the output",
     ]
     ck.proof()
+    inheritance_family(ck)
 
     sw = L.Sweeps()
     nolim = L.Limits()
@@ -220,6 +302,13 @@ def run(ck: Check) -> None:
 
 def replay(data) -> int:
     case = data["case"]
+    if case.get("kind") == "inherit":
+        s_, a_ = _render_chain(case["templates"], case["limit"], False), _render_chain(case["templates"], case["limit"], True)
+        print("templates:", case["templates"], "loop_iteration_limit:", case["limit"], "enclosing lengths:", case["lengths"])
+        print("sync :", s_, "async:", a_)
+        v = judge_chain(case["lengths"], case["limit"], s_, a_)
+        print(("VIOLATION reproduced: " + v[1] if v else "not reproduced") + f" property={data['property']}")
+        return 1 if v else 0
     if "main" not in case or data.get("kind") != "impl-violation":
         print("replay names a proof/correspondence obligation:", {k: case[k] for k in case if k != "main"})
         return 1
